@@ -45,6 +45,7 @@ def run(ctx, rep):
         check_bounds(fx, rep)
         check_unsafe_pops(ctx, rep)
         check_push_slice_fill(fx, rep)
+        check_immediate_arithmetic(fx, rep)
     finally:
         rt.NUMERIC_CONSTS = old
     rep.assume('`assume!`/debug assertions are not relied on: only explicit comparisons count as guards')
@@ -387,3 +388,61 @@ def loop_bound_is(f, og, K):
                 if all(o.root[0] == 'const' and str(o.root[2]).split('::')[-1] == K for o in end):
                     return True
     return False
+
+
+def check_immediate_arithmetic(fx, rep):
+    """R5: the EOF stack instructions decode their operand from one immediate byte.  Arithmetic on
+    that byte is done in a width it cannot overflow: for every u8 addition in dupn / swapn / exchange
+    the largest possible left operand (255 for the raw byte, reduced by `>> k` and `& mask`) plus the
+    constant stays within u8.  (`imm + 1` in u8 overflows for 0xFF: DUPN 255 would panic or wrap to
+    dup(0) instead of duplicating the 256th word / reporting underflow.)"""
+    from cfg import Origins
+    n = 0
+    for nm in ('dupn', 'swapn', 'exchange'):
+        f = fx.fns.get('revm_interpreter::instructions::stack::' + nm)
+        if f is None:
+            rep.undecided('R5-immediate-arithmetic', nm, 'not found')
+            continue
+        rep.fn(f)
+        og = Origins(f, fx)
+
+        def umax(oo, depth=0):
+            best = 0
+            for o in oo:
+                r = o.root
+                if r[0] == 'const' and r[1] is not None:
+                    best = max(best, int(r[1]))
+                elif r[0] == 'bin' and depth < 6 and len(r) > 3:
+                    a, b = umax(list(r[2]), depth + 1), umax(list(r[3]), depth + 1)
+                    op = r[1].replace('WithOverflow', '')
+                    if op == 'Shr':
+                        best = max(best, a >> min(b, 8))
+                    elif op == 'BitAnd':
+                        best = max(best, min(a, b))
+                    elif op == 'Add':
+                        best = max(best, a + b)
+                    else:
+                        best = max(best, 255)
+                else:
+                    best = max(best, 255)
+            return best
+        bad = None
+        for b in f.blocks:
+            if b.cleanup:
+                continue
+            for s_ in b.stmts:
+                if s_.kind != 'assign' or s_.rv is None or s_.rv.rv != 'bin' or len(s_.rv.ops or []) != 2:
+                    continue
+                op = (s_.rv.d.get('op') or '')
+                a, c_ = s_.rv.ops
+                if not op.startswith(('Add', 'Mul', 'Sub')) or a.place is None or (f.local_ty(a.place.b) or '') != 'u8':
+                    continue
+                n += 1
+                hi = umax(og.of_operand(a)) + umax(og.of_operand(c_)) if op.startswith('Add') else 256
+                if hi > 255:
+                    bad = '`%s` is computed in u8 with a left operand that can be %d' % (s_.render()[:50], umax(og.of_operand(a)))
+        if bad:
+            rep.violation('R5-immediate-arithmetic', nm, '%s: %s - the immediate 0xFF overflows the byte' % (nm, bad), f.where())
+        else:
+            rep.ok('R5-immediate-arithmetic', nm, 'no u8 arithmetic that can overflow')
+    rep.floor('R5-u8-arithmetic-sites', n, 2)
